@@ -1533,7 +1533,7 @@ fn main() {
 
     // concurrent callers: targeted races first, then generated ones
     out.rule.push_str(" | conc: 2-3 threads x 1-3 calls (resume / cancel / advance / ack / sent / credit / reconnect and the reads offsets, is_cancelled, cancel_reason, peer) released from a spin barrier on one real object whose displaced peer's sink takes a few microseconds to drop; the outcome (all return values + final state + what a reconnect wait hands over) must be the outcome of a sequential order respecting program order, decided on the real object's own sequential runs (oracle) and by the model (diff); non-trivial = more than one sequential outcome");
-    let (t_reps, t_budget, g_n, g_reps, g_budget) = if thorough { (60_000, 2500, 1200, 1500, 120) } else { (12_000, 450, 110, 300, 25) };
+    let (t_reps, t_budget, g_n, g_reps, g_budget) = if thorough { (60_000, 2000, 600, 1500, 100) } else { (12_000, 450, 110, 300, 25) };
     let mut ci = 0;
     for spec in conc_targeted(ring_bias) {
         let line = format!("conc q{} {}", ci, spec);
